@@ -15,15 +15,15 @@
      implementation sorts the same way.  HashSet<u32>::contains is list membership.
    * `unstaged_lines.binary_search(&w).is_ok()` on a sorted vector is membership.
    * `count() as u32` (usize -> u32) is the identity below 2^32 elements.
-   * `workdir_line_num - adjustment` is a u32 subtraction: an underflow is the outcome SPanic
-     (debug build / overflow checks), never a totalised 0.  Proofs/SplitProofs.v shows it cannot
-     happen when the unstaged list has no duplicates (no_panic).
+   * workdir_to_commit_line computes in i64 and converts with u32::try_from: a negative result
+     is "no commit line" (None), not a panic; the outcome SPanic is kept in the result type but
+     the repaired code has no u32 subtraction left (split_no_panic).
    * prompts / metadata are not part of the per-file result.
    * A file whose uncommitted map holds only the human author gets an empty INITIAL entry in
      Rust (and write_initial_attributions drops empty entries); here: no entries.
 
    Second half: the SPEC level.  A file version is a list of pairwise distinct line ids;
-   P = parent, C = commit, W = work tree.  committed / unstaged / pure_ins are what
+   P = parent, C = commit, W = work tree.  committed / unstaged / hunks_of are what
    `git diff -U0` reports for such files (validated against real git in vlib/c04.py). *)
 From Coq Require Import List NArith Bool.
 From Verif Require Import Base.Str Base.RangeSet.
@@ -69,51 +69,82 @@ Fixpoint sort_keys {A} (l : list (list N * A)) : list (list N * A) :=
   match l with [] => [] | e :: t => kinsert e (sort_keys t) end.
 
 (* ------------------------------------------------------------------ the per-file body *)
-(* number of unstaged lines strictly before w:  .iter().filter(|&&l| l < w).count() *)
-Definition count_lt (w : N) (l : list N) : N := N.of_nat (length (filter (fun x => x <? w) l)).
+(* HunkSpan { old_count, new_start, new_count }: extent of one hunk of `git diff -U0 <commit>`
+   against the work tree.  For a pure deletion new_count = 0 and new_start is the work-tree line
+   the deletion follows. *)
+Definition hunk := (N * N * N)%type.
+Definition h_old (h : hunk) : N := fst (fst h).
+Definition h_start (h : hunk) : N := snd (fst h).
+Definition h_new (h : hunk) : N := snd h.
+(* hunk_end = new_start + new_count.saturating_sub(1)   (computed in u64) *)
+Definition h_end (h : hunk) : N := h_start h + (h_new h - 1).
 
-(* lines 779-814: unstaged lines that are also committed line numbers are dropped from the
-   unstaged hunks unless they are pure insertions; only for files that have committed hunks *)
-Definition filter_unstaged (ch uh ph : list lrange) : list lrange :=
+(* sum of f over the hunks that end before work-tree line w *)
+Fixpoint sum_before (f : hunk -> N) (H : list hunk) (w : N) : N :=
+  match H with
+  | [] => 0
+  | h :: t => (if h_end h <? w then f h else 0) + sum_before f t w
+  end.
+
+(* workdir_to_commit_line: w + sum (old_count - new_count) over the hunks ending before w, in
+   i64; u32::try_from fails (None) when the result is negative.  (A result above u32::MAX needs
+   more than 2^32 lines; not modelled.) *)
+Definition to_commit_line (H : list hunk) (w : N) : option N :=
+  let a := w + sum_before h_old H w in
+  let b := sum_before h_new H w in
+  if a <? b then None else Some (a - b).
+
+(* replaced_commit_line: the line lies in a hunk that modifies existing lines, at an offset the
+   old side also has *)
+Definition replaces (H : list hunk) (w : N) : bool :=
+  existsb (fun h => (h_start h <=? w) && (w - h_start h <? N.min (h_new h) (h_old h))) H.
+Definition replaced_commit_line (H : list hunk) (w : N) : option N :=
+  if replaces H w then to_commit_line H w else None.
+
+(* an unstaged line that takes the place of a line added by this commit is not kept as unstaged *)
+Definition hidden (cl : list N) (H : list hunk) (w : N) : bool :=
+  match replaced_commit_line H w with Some c => mem c cl | None => false end.
+
+(* the filter step; only for files that have committed hunks *)
+Definition filter_unstaged (ch uh : list lrange) (H : list hunk) : list lrange :=
   match ch with
   | [] => uh                       (* file absent from committed_hunks: nothing to do *)
   | _ =>
     let cl := expand_all ch in
-    let pl := expand_all ph in
-    let f := filter (fun l => negb (mem l cl) || mem l pl) (expand_all uh) in
+    let f := filter (fun l => negb (hidden cl H l)) (expand_all uh) in
     match f with
     | [] => []                                     (* unstaged_ranges.clear() *)
     | _ => compress_lines (dedup (isort f))
     end
   end.
 
-(* lines 823-829: unstaged_lines of this file, sorted *)
-Definition unstaged_lines (ch uh ph : list lrange) : list N :=
-  isort (expand_all (filter_unstaged ch uh ph)).
+(* unstaged_lines of this file, sorted *)
+Definition unstaged_lines (ch uh : list lrange) (H : list hunk) : list N :=
+  isort (expand_all (filter_unstaged ch uh H)).
 
-(* what happens to one work-tree line number of one attribution (lines 842-879) *)
+(* what happens to one work-tree line number of one attribution.  DPanic is kept for the
+   outcome type; the repaired translation has no u32 subtraction left *)
 Inductive line_dec := DInit (w : N) | DNote (c : N) | DDrop | DPanic.
 
-Definition classify (ch : list lrange) (ul : list N) (w : N) : line_dec :=
+Definition classify (ch : list lrange) (ul : list N) (H : list hunk) (w : N) : line_dec :=
   if mem w ul then DInit w                               (* is_unstaged *)
   else
-    let adj := count_lt w ul in
-    if w <? adj then DPanic                              (* u32 underflow *)
-    else
-      let c := w - adj in                                (* commit_line_num *)
-      if contains_any ch c then DNote c else DDrop.
+    match to_commit_line H w with                        (* commit_line_num *)
+    | Some c => if contains_any ch c then DNote c else DDrop
+    | None => DDrop
+    end.
 
 (* all (author, line) pairs in the order of the two nested loops
    `for line_attr in line_attrs { for workdir_line_num in start_line..=end_line {` *)
 Definition claims (attrs : list lattr) : list (list N * N) :=
   flat_map (fun la => map (pair (la_author la)) (span (la_start la) (la_end la))) attrs.
 
-Definition step (ch : list lrange) (ul : list N) (st : option (amap * amap)) (cl : list N * N)
-  : option (amap * amap) :=
+Definition step (ch : list lrange) (ul : list N) (H : list hunk) (st : option (amap * amap))
+           (cl : list N * N) : option (amap * amap) :=
   match st with
   | None => None
   | Some (cm, um) =>
-    match classify ch ul (snd cl) with
+    match classify ch ul H (snd cl) with
     | DInit w => Some (cm, apush (fst cl) w um)          (* uncommitted_lines_map *)
     | DNote c => Some (apush (fst cl) c cm, um)          (* committed_lines_map *)
     | DDrop => Some (cm, um)
@@ -137,15 +168,15 @@ Inductive split_res :=
 | SOk (note : list (list N * list lrange)) (initial : list lattr)
 | SPanic.
 
-(* committed / unstaged / pure_ins: the sorted, deduplicated added-line numbers that
-   diff_added_lines(parent, commit) and diff_workdir_added_lines_with_insertions(commit) return
-   for this file; collect_*_hunks compress them *)
-Definition split_file (attrs : list lattr) (committed unstaged pure_ins : list N) : split_res :=
+(* committed / unstaged: the sorted, deduplicated added-line numbers that
+   diff_added_lines(parent, commit) and diff_workdir_added_lines_with_hunks(commit) return for this
+   file (collect_*_hunks compress them); hunks: the hunk extents of the second diff, in order *)
+Definition split_file (attrs : list lattr) (committed unstaged : list N) (hunks : list hunk)
+  : split_res :=
   let ch := compress_lines committed in
   let uh := compress_lines unstaged in
-  let ph := compress_lines pure_ins in
-  let ul := unstaged_lines ch uh ph in
-  match fold_left (step ch ul) (claims attrs) (Some (([], []) : amap * amap)) with
+  let ul := unstaged_lines ch uh hunks in
+  match fold_left (step ch ul hunks) (claims attrs) (Some (([], []) : amap * amap)) with
   | None => SPanic
   | Some (cm, um) => SOk (finish_note cm) (finish_initial um)
   end.
@@ -204,53 +235,49 @@ Definition committed (P C : list N) : list N := pos_from 1 (fun x => negb (mem x
 (* added lines of `git diff -U0 C` against the work tree, in W coordinates *)
 Definition unstaged (C W : list N) : list N := pos_from 1 (fun x => negb (mem x C)) W.
 
-(* Added lines of hunks with old_count = 0.  With -U0 a hunk is a maximal run of changed lines
-   between two consecutive kept lines; walking W, `run` collects the positions of the current
-   run of W-only lines and `prev` is the C position of the last kept line seen (0 at the top).
-   At the next kept line, at C position q, the run replaced the C lines prev+1 .. q-1: it is a
-   pure insertion iff q = prev + 1.  At the end of W the next kept position is |C| + 1. *)
-Fixpoint pure_from (C : list N) (i prev : N) (run : list N) (W : list N) : list N :=
+(* The hunks of `git diff -U0 C` against W for versions of pairwise distinct lines whose kept lines
+   keep their order.  With -U0 a hunk is a maximal run of changed lines between two consecutive
+   kept lines.  Walking W: wi is the position of the current line, wb the position of the last
+   kept line seen (0 at the top) and cprev its position in C.  At the next kept line, at C
+   position q, the C lines cprev+1 .. q-1 were replaced by the W lines wb+1 .. wi-1: old_count =
+   q - cprev - 1, new_count = wi - wb - 1, new_start = wb + 1 (or wb for a pure deletion), and no
+   hunk when both counts are 0.  At the end of W the next kept position is |C| + 1. *)
+Definition emit (d s a : N) : list hunk := if d + a =? 0 then [] else [(d, s, a)].
+Fixpoint hunks_from (C : list N) (wi wb cprev : N) (W : list N) : list hunk :=
   match W with
-  | [] => if N.of_nat (length C) + 1 =? prev + 1 then run else []
+  | [] => let a := wi - wb - 1 in
+          emit (N.of_nat (length C) - cprev) (if a =? 0 then wb else wb + 1) a
   | x :: t =>
     match index_of x C with
-    | Some q => (if q =? prev + 1 then run else []) ++ pure_from C (i + 1) q [] t
-    | None => pure_from C (i + 1) prev (run ++ [i]) t
+    | Some q => let a := wi - wb - 1 in
+                emit (q - cprev - 1) (if a =? 0 then wb else wb + 1) a ++ hunks_from C (wi + 1) wi q t
+    | None => hunks_from C (wi + 1) wb cprev t
     end
   end.
-Definition pure_ins (C W : list N) : list N := pure_from C 1 0 [] W.
+Definition hunks_of (C W : list N) : list hunk := hunks_from C 1 0 0 W.
 
 (* domain of the spec: distinct ids, and edits that keep the relative order of kept lines (no
    moves), so that the minimal diff is unique and is the one described above *)
 Fixpoint nodupb (l : list N) : bool :=
   match l with [] => true | x :: t => negb (mem x t) && nodupb t end.
+(* positions in A of the lines of B that A also has, in B's order *)
+Definition kept_pos (A B : list N) : list N :=
+  flat_map (fun x => match index_of x A with Some q => [q] | None => [] end) B.
+Fixpoint increasing (l : list N) : bool :=
+  match l with [] => true | x :: t => forallb (fun y => x <? y) t && increasing t end.
+Definition ordered (A B : list N) : bool := increasing (kept_pos A B).
 Definition same_order (A B : list N) : bool :=
   str_eqb (filter (fun x => mem x B) A) (filter (fun x => mem x A) B).
 Definition wf3 (P C W : list N) : bool :=
-  nodupb P && nodupb C && nodupb W && same_order P C && same_order C W.
+  nodupb P && nodupb C && nodupb W && ordered P C && ordered C W.
 
 (* --- the side condition ---
-   no_hidden: the filter step removes nothing, i.e. no unstaged line that is not a pure insertion
-   carries a work-tree number that is also a committed line number of C.
-   tail_only: every line of C that the work tree deleted or replaced lies below every line of C
-   that the work tree kept (so above a kept line there are only pure insertions).
-   offsets_ok: the computed commit line number of every kept line is its real position in C. *)
+   no_hidden: the filter step removes nothing, i.e. no line of W that is not in C takes, inside
+   its hunk, the place of a line that this commit added (an unstaged rewrite of a just-committed
+   line; the implementation deliberately credits such a line to the commit). *)
 Definition no_hidden (P C W : list N) : bool :=
-  forallb (fun w => negb (mem w (committed P C)) || mem w (pure_ins C W)) (unstaged C W).
-Fixpoint drop_while (f : N -> bool) (l : list N) : list N :=
-  match l with [] => [] | x :: t => if f x then drop_while f t else l end.
-Definition tail_only (C W : list N) : bool :=
-  forallb (fun x => negb (mem x W)) (drop_while (fun x => mem x W) C).
-Definition offsets_ok (C W : list N) : bool :=
-  forallb (fun p => match index_of (snd p) C with
-                    | Some c => (count_lt (fst p) (unstaged C W) <=? fst p)
-                                && (fst p - count_lt (fst p) (unstaged C W) =? c)
-                    | None => true
-                    end) (enum_from 1 W).
-
-Definition shift_consistent (P C W : list N) : bool := no_hidden P C W && offsets_ok C W.
-Definition shift_consistent_struct (P C W : list N) : bool := no_hidden P C W && tail_only C W.
-Definition Known_C04 (P C W : list N) : bool := negb (shift_consistent P C W).
+  forallb (fun w => negb (hidden (committed P C) (hunks_of C W) w)) (unstaged C W).
+Definition Known_C04 (P C W : list N) : bool := negb (no_hidden P C W).
 
 (* --- what the outputs list --- *)
 Definition note_lists (note : list (list N * list lrange)) (a : list N) (c : N) : bool :=
@@ -328,4 +355,4 @@ Definition spec_verdict (P C W : list N) (attrs : list lattr) (r : split_res) : 
   end.
 
 Definition run_spec (P C W : list N) (attrs : list lattr) : split_res :=
-  split_file attrs (committed P C) (unstaged C W) (pure_ins C W).
+  split_file attrs (committed P C) (unstaged C W) (hunks_of C W).
